@@ -415,8 +415,11 @@ func (e *Env) valEq(a, b Val) Term {
 		e.fail("comparing values of different shapes: %s vs %s", a.T, b.T)
 	}
 	if _, ok := a.T.Underlying().(*types.Slice); ok {
-		// only comparison with nil is meaningful for slices
-		return tEq(a.L[0], b.L[0])
+		if a.L[0] == rnil || b.L[0] == rnil {
+			return tEq(a.L[0], b.L[0]) // comparison with nil
+		}
+		// contract-level slice equality: same backing array, offset and length
+		return tAnd(tEq(a.L[0], b.L[0]), tEq(a.L[1], b.L[1]), tEq(a.L[2], b.L[2]))
 	}
 	return valEq(a, b)
 }
@@ -512,6 +515,48 @@ func (e *Env) evalCall(c *ast.CallExpr) Val {
 		// allocated(p): p existed in the pre-state of the enclosing contract
 		v := e.eval(arg(0))
 		return boolVal("(<= " + tRid(v.L[0]) + " " + e.old.alloc + ")")
+	case "sameobj":
+		// sameobj(p, q): p and q point into the same allocation
+		a, b := e.eval(arg(0)), e.eval(arg(1))
+		ra, rb := a.L[0], b.L[0]
+		if isInterface(a.T) {
+			ra = a.L[1]
+		}
+		if isInterface(b.T) {
+			rb = b.L[1]
+		}
+		return boolVal(tAnd(tNot(tIsNil(ra)), tEq(tRid(ra), tRid(rb))))
+	case "tagof":
+		v := e.eval(arg(0))
+		if !isInterface(v.T) {
+			e.fail("tagof on non-interface %s", v.T)
+		}
+		return intVal(v.L[0])
+	case "typeid":
+		return intVal(tInt(int64(e.x.prog.typeID(e.x.typeOfExpr(arg(0))))))
+	case "mapempty":
+		m := e.eval(arg(0))
+		mt := m.T.Underlying().(*types.Map)
+		dom, _, _, _ := mapSorts(mt)
+		d := e.st.loadIn(e.cur, dom, extend(m.L[0], []int{0}))
+		return boolVal(tOr(tIsNil(m.L[0]), tEq(d, zeroOfSort(dom))))
+	case "mapsame":
+		a, b := e.eval(arg(0)), e.eval(arg(1))
+		mt := a.T.Underlying().(*types.Map)
+		dom, val, _, hasVal := mapSorts(mt)
+		c := tEq(e.st.loadIn(e.cur, dom, extend(a.L[0], []int{0})), e.st.loadIn(e.cur, dom, extend(b.L[0], []int{0})))
+		if hasVal {
+			c = tAnd(c, tEq(e.st.loadIn(e.cur, val, extend(a.L[0], []int{1})), e.st.loadIn(e.cur, val, extend(b.L[0], []int{1}))))
+		}
+		return boolVal(tAnd(tNot(tIsNil(a.L[0])), tNot(tIsNil(b.L[0])), c))
+	case "bytes":
+		// bytes(b): the content of a byte slice as a string
+		v := e.eval(arg(0))
+		if _, ok := v.T.Underlying().(*types.Slice); !ok {
+			e.fail("bytes() of non-slice %s", v.T)
+		}
+		e.x.d.DeclareFun("strOf", []string{"Ref", "Int", "Int"}, "String")
+		return Val{T: tyString, L: []Term{"(strOf " + v.L[0] + " " + v.L[1] + " " + v.L[2] + ")"}}
 	case "strcontains":
 		a, b := e.eval(arg(0)), e.eval(arg(1))
 		return boolVal("(str.contains " + a.L[0] + " " + b.L[0] + ")")
@@ -664,6 +709,19 @@ func (x *Exec) typeOfExpr(e ast.Expr) types.Type {
 		}
 	case *ast.InterfaceType:
 		return types.NewInterfaceType(nil, nil)
+	case *ast.FuncType:
+		var ps, rs []*types.Var
+		if e.Params != nil {
+			for _, f := range e.Params.List {
+				ps = append(ps, types.NewVar(token.NoPos, nil, "", x.typeOfExpr(f.Type)))
+			}
+		}
+		if e.Results != nil {
+			for _, f := range e.Results.List {
+				rs = append(rs, types.NewVar(token.NoPos, nil, "", x.typeOfExpr(f.Type)))
+			}
+		}
+		return types.NewSignatureType(nil, nil, nil, types.NewTuple(ps...), types.NewTuple(rs...), false)
 	case *ast.ChanType:
 		return types.NewChan(types.SendRecv, x.typeOfExpr(e.Value))
 	}
